@@ -349,12 +349,23 @@ def check_init(ctx, fn, X):
     why = "no loop over self.prior.par_names"
     whym = why
     dest = None
-    if len(lp) == 1:
-        nm = lp[0].target.id
-        st = [s for s in lp[0].body if isinstance(s, ast.Assign) and isinstance(s.targets[0], ast.Subscript) and isinstance(s.targets[0].value, ast.Name) and canon(s.targets[0].slice) == nm]
+    # the same table written as a comprehension: D = {name: value(name) for name in prior.par_names}
+    dcs = [s for s in A.walk_local(fn) if isinstance(s, ast.Assign) and isinstance(s.targets[0], ast.Name) and isinstance(s.value, ast.DictComp) and len(s.value.generators) == 1
+           and not s.value.generators[0].ifs and canon(s.value.generators[0].iter) == canon(parse("self.prior.par_names")) and isinstance(s.value.generators[0].target, ast.Name)
+           and canon(s.value.key) == s.value.generators[0].target.id]
+    comp_form = None
+    if not lp and len(dcs) == 1:
+        comp_form = dcs[0]
+    if len(lp) == 1 or comp_form is not None:
+        if comp_form is not None:
+            nm = comp_form.value.generators[0].target.id
+            st = [comp_form]
+        else:
+            nm = lp[0].target.id
+            st = [s for s in lp[0].body if isinstance(s, ast.Assign) and isinstance(s.targets[0], ast.Subscript) and isinstance(s.targets[0].value, ast.Name) and canon(s.targets[0].slice) == nm]
         if len(st) == 1:
-            dest = st[0].targets[0].value.id
-            v = A.inline_temporaries(st[0].value, st[0], fn)
+            dest = st[0].targets[0].id if comp_form is not None else st[0].targets[0].value.id
+            v = A.inline_temporaries(comp_form.value.value if comp_form is not None else st[0].value, st[0], fn, exclude=(nm,))
             r = flow.resolve(v, at=st[0])
             cases = A.ifexp_terms(r)
             forms = ("%s[" + nm + "].to_value(getattr(self.prior.pars[" + nm + "], xu.UNIT_ATTR_NAME))", "%s[" + nm + "].to(getattr(self.prior.pars[" + nm + "], xu.UNIT_ATTR_NAME)).value")
@@ -401,9 +412,33 @@ def run(ctx):
                            "(shared with C09-FCM; the kernel side is C01-KVAR).")
     check_fcm(_Relabel(ctx, {"C09-FCM": "C11-KPRIOR"}))
     check_init(ctx, fn, X)
+    from .C09 import check_uniformlog
+    from .C07 import check_units_module
+    ctx.rule("C11-DENS", "the declared densities the MCMC target is built from: UniformLog.logp is -ln(value) - ln ln(b/a) on a <= value <= b and -inf outside (shared with "
+                         "C09-FORM); units.to_unit converts in the right direction (shared with C07-TOUNIT).")
+    check_uniformlog(_Relabel(ctx, {"C09-FORM": "C11-DENS", "C09-SUPP": "C11-DENS", "C09-FORM:logp": "C11-DENS", "C09-FORM:rng_fn": "C11-DENS"}))
+    check_units_module(_Relabel(ctx, {"C07-TOUNIT": "C11-DENS"}))
     from .C07 import _Relabel as _RL
     from .C08 import check_returned
     check_returned(_RL(ctx, {}), "C11-TREND")
+    ctx.rule("C11-NAMES", "the model variables setup_mcmc looks up by name (`t_peri`, `obs`, ...) are created by setup_mcmc only: a variable of that name registered elsewhere "
+                          "(in other units) would be reused through the `not in model.named_vars` guards.")
+    looked = set()
+    for n_ in A.walk_local(fn):
+        if isinstance(n_, ast.Compare) and len(n_.ops) == 1 and isinstance(n_.ops[0], (ast.In, ast.NotIn)) and "named_vars" in A.unparse(n_.comparators[0]) and A.str_const(n_.left):
+            looked.add(A.str_const(n_.left))
+        if isinstance(n_, ast.Subscript) and "named_vars" in A.unparse(n_.value) and A.str_const(n_.slice):
+            looked.add(A.str_const(n_.slice))
+    k_ = 0
+    for mn_, q_, f_ in ctx.prog.all_functions():
+        if mn_ == TJ and q_ == Q:
+            continue
+        for c_ in A.calls_in(f_):
+            if (A.call_name(c_) or "").split(".")[0] in ("pm", "pymc") and c_.args and A.str_const(c_.args[0]) in looked:
+                k_ += 1
+                ctx.violate("C11-NAMES", c_, "`%s` is created by setup_mcmc only" % A.str_const(c_.args[0]),
+                            "%s registers a model variable named `%s`: setup_mcmc finds it in model.named_vars and uses it instead of its own (day / radian based) one" % (q_, A.str_const(c_.args[0])), key="names:%s:%s" % (q_, A.str_const(c_.args[0])))
+    ctx.check("C11-NAMES", fn, "no other function creates %s" % sorted(looked), k_ == 0 and bool(looked), "no looked-up names found" if not looked else "", key="names", nontrivial=False)
     ctx.rule("C11-PURE", "the initial point is the chosen sample: setup_mcmc, and the diagnostics / selectors it calls on the samples (is_P_unimodal, median_period), only read "
                          "them - an in-place sort of a column view would pair the median period with another row's angles and amplitudes (shared with C19-PURE).")
     SA_ = "thejoker.samples_analysis"
